@@ -110,7 +110,7 @@ def thorough_models(dev_names=()):
     return runs
 
 
-def adversary_model(name, maxadv, dev='{}', expect='ok', own=1, timeout=1800, note=''):
+def adversary_model(name, maxadv, dev='{}', expect='ok', own=1, timeout=1800, note='', enforced='{"C17"}', only=None):
     ''' Victim P (real), adversary plays A: every sequence of at most ``maxadv`` messages of the catalogue,
     interleaved in every way with the victim's callbacks and with acknowledgements of its segments. '''
     mod = '''---- MODULE %s ----
@@ -138,6 +138,13 @@ McMoves == {
   Base("KA", 1)
 }
 ====''' % (name, own)
+    if only is not None:
+        # a sub-catalogue (by message kind) for runs that enforce other properties than C17
+        lines = mod.split('\n')
+        first = lines.index('McMoves == {') + 1
+        last = lines.index('}')
+        kept = [ln.rstrip(',') for ln in lines[first:last] if any(k in ln for k in only)]
+        mod = '\n'.join(lines[:first] + [',\n'.join(kept)] + lines[last:])
     cfg = '''SPECIFICATION Spec
 CONSTANTS
   Lens <- McLens
@@ -154,11 +161,11 @@ CONSTANTS
   SegChoice = {}
   SegFloor = 0
   Dev = %s
-  Enforced = {"C17"}
+  Enforced = %s
   Known = {}
   Diag = FALSE
 INVARIANT OK
 INVARIANT QuiescentOK
 CHECK_DEADLOCK FALSE
-''' % (maxadv, dev)
+''' % (maxadv, dev, enforced)
     return ModelRun(name, cfg, name, expect=expect, module_text=mod, timeout=timeout, note=note)
